@@ -301,6 +301,11 @@ async fn open(dir: &Path, cfg: &Cfg, sh: Arc<Shared>, switch: Switch) -> foyer::
         "all" => {}
         "none" => eng = eng.with_admission_filter(StorageFilter::new().with_condition(Biased::new([]))),
         "throttle" => eng = eng.with_admission_filter(StorageFilter::new().with_condition(AlwaysThrottle)),
+        s if s.starts_with("size<") => {
+            // admitted iff the estimated entry size is below the bound: the verdict differs between versions of a key
+            let n: usize = s[5..].parse().unwrap();
+            eng = eng.with_admission_filter(StorageFilter::new().with_condition(foyer::EstimatedSize::new(..n)));
+        }
         s => {
             let keys: Vec<u64> = s.split(',').filter(|x| !x.is_empty()).map(|x| x.parse().unwrap()).collect();
             eng = eng.with_admission_filter(StorageFilter::new().with_condition(Biased::new(keys)));
